@@ -2048,14 +2048,23 @@ static Value eval_prefix_op(ASTNode *node, Environment *env) {
                 case TOKEN_SLASH:
                     if (right.as.int_val == 0) {
                         fprintf(stderr, "Error: Division by zero\n");
-                        return create_void();
+                        exit(1);  /* Fail fast: the compiled program faults here too */
+                    }
+                    if (right.as.int_val == -1) {
+                        /* INT64_MIN / -1 wraps (and must not trap the compiler with SIGFPE) */
+                        result = (long long)(0ULL - (unsigned long long)left.as.int_val);
+                        break;
                     }
                     result = left.as.int_val / right.as.int_val;
                     break;
                 case TOKEN_PERCENT:
                     if (right.as.int_val == 0) {
                         fprintf(stderr, "Error: Modulo by zero\n");
-                        return create_void();
+                        exit(1);  /* Fail fast: the compiled program faults here too */
+                    }
+                    if (right.as.int_val == -1) {
+                        result = 0;  /* x % -1 == 0; INT64_MIN % -1 must not trap */
+                        break;
                     }
                     result = left.as.int_val % right.as.int_val;
                     break;
